@@ -6,7 +6,7 @@ from vf.ob import obligation, shard
 from tartiflette.types.exceptions.tartiflette import GraphQLSyntaxError, TartifletteError
 
 META = {
-    "bounds": "operation_name: every string or None against 5 document shapes; the FFI parser outcome: an arbitrary error string (the C function's contract) or one of 22 catalogue "
+    "bounds": "operation_name: every string or None against 5 document shapes; the FFI parser outcome: an arbitrary error string (the C function's contract) or one of 24 catalogue "
               "documents (valid, invalid, runtime-failing, syntactically broken, str/bytes, multi-line); custom error coercer returning a dict with a symbolic int; resolver payload ints unbounded",
     "outside": "which texts the C lexer accepts (the C parser is absent: claims start at the JSON AST the FFI model produces for the text); `variables` that are not a dict/None",
     "explanation": "Well-formedness predicate on every response + operation selection written from the spec (GetOperation) + coercer call log.",
@@ -22,12 +22,18 @@ async def _res(parent, args, ctx, info):
         raise ValueError("boom")
     if f == "tboom":
         raise TartifletteError("user", extensions={"k": 1})
+    if f == "kboom":
+        raise KeyError(7)                 # a lookup that failed: the exception's only argument is not a string
+    if f == "oboom":
+        raise ValueError({"a": [1, None]}, 5)
+    if f == "nboom":
+        raise RuntimeError()              # no argument at all
     if f == "echo":
         return args.get("v")
     return world.read(parent, f)
 
 
-SDL = "type Query { a: Int b: Int nn: Int! boom: Int tboom: Int echo(v: Int): Int q: Query }\ntype Mutation { m: Int }"
+SDL = "type Query { a: Int b: Int nn: Int! boom: Int tboom: Int kboom: Int oboom: Int nboom: Int echo(v: Int): Int q: Query }\ntype Mutation { m: Int }"
 ENG = build(SDL, "c18", custom_default_resolver=_res, query_cache_decorator=None)
 PAYLOAD = {"n": 0}
 
@@ -115,6 +121,7 @@ def c18_operation_name(op: Optional[str]) -> bool:
 CATALOGUE = [
     "{ a }", "{ a b q { a } }", "{ boom a }", "{ nn }", "{ tboom }", "{ nope }", "{ a { x } }", "query ($v: Int!) { echo(v: $v) }", "{ a ", "", "}{", "{ a }\n\n{ b }",
     "query Q {\n  a\n  boom\n  q {\n    tboom\n  }\n}", "{ a(x: 1) }", "# only a comment", "{ echo(v: \"s\") }", "query Q($v: Int) { echo(v: $v) q { q { boom } } }",
+    "{ kboom a }", "{ q { oboom nboom kboom } }",
     b"\xff\xfe\x00{ a }\x80", "{ a } # caf\u00e9".encode("latin-1"), b"\x00", "{ a } # \u00e9\u4e2d".encode("utf-8"), "{ \u00e9 }",
 ]
 
@@ -122,8 +129,8 @@ CATALOGUE = [
 @obligation(tier="quick", timeout=200,
             samples=[{"k": 0, "asbytes": False, "nullnn": False, "v": 1, "withop": 0}, {"k": 8, "asbytes": True, "nullnn": True, "v": None, "withop": 1}],
             symbolic=["v: Optional[int] — variable / payload (unbounded)"],
-            selectors=["k: catalogue text (22, incl. bytes that are not valid UTF-8)", "asbytes: str or bytes", "nullnn: the non-null field resolves to null", "withop: operation_name absent / 'Q' / unknown"],
-            bounds="22 texts x str/bytes x 3 operation names",
+            selectors=["k: catalogue text (24, incl. bytes that are not valid UTF-8)", "asbytes: str or bytes", "nullnn: the non-null field resolves to null", "withop: operation_name absent / 'Q' / unknown"],
+            bounds="24 texts x str/bytes x 3 operation names",
             note="never raises; response well-formed (data key, non-empty errors only when something went wrong, message/path/locations inside the text, extensions only when set); syntax errors give data null and run nothing")
 def c18_catalogue(k: int, asbytes: bool, nullnn: bool, v: Optional[int], withop: int) -> bool:
     """
@@ -145,6 +152,10 @@ def c18_catalogue(k: int, asbytes: bool, nullnn: bool, v: Optional[int], withop:
     if not ok or not wellformed(r, q):
         return verdict(False)
     broken = k in (8, 9, 10, 14)
+    if k in (17, 18) and withop == 0:
+        # failing resolvers whose exception carries a non-string / no argument: still one well-formed error per failing field
+        want = 1 if k == 17 else 3
+        return verdict(r.get("data") is not None and len(r.get("errors") or []) == want)
     if broken:
         return verdict(r["data"] is None and bool(r.get("errors")) and not LOG)
     return verdict(True)
@@ -175,13 +186,13 @@ def c18_ffi_error(msg: str, op: Optional[str]) -> bool:
                    and es[0]["locations"] == [] and not LOG)
 
 
-COERCER_DOCS = ["{ a }", "{ boom }", "{ boom tboom q { boom } }", "{ nope }", "{ a ", "{ nn }", "query A { a } query B { b }"]
-NERR = [0, 1, 3, None, 1, 1, 1]
+COERCER_DOCS = ["{ a }", "{ boom }", "{ boom tboom q { boom } }", "{ nope }", "{ a ", "{ nn }", "query A { a } query B { b }", "{ kboom oboom }"]
+NERR = [0, 1, 3, None, 1, 1, 1, 2]
 
 
 @obligation(tier="quick", timeout=120, samples=[{"k": 1, "n": 5}, {"k": 2, "n": -1}],
             symbolic=["n: int — a value the custom error coercer puts into every error"], selectors=["k: request (no error, 1 field error, 3 field errors, validation errors, syntax error, non-null violation, ambiguous operation)"],
-            bounds="7 requests",
+            bounds="8 requests",
             note="a custom error_coercer is awaited exactly once per reported error and its return value is what appears in `errors`")
 def c18_error_coercer(k: int, n: int) -> bool:
     """
